@@ -231,7 +231,7 @@ def lens_vcs():
                                              z3.And(0 <= r, r <= T, z3.Implies(z3.And(0 <= J, J < r), z3.Not(iseos(J))), z3.Implies(r < T, iseos(r))))),
                 ("result_is_partial_sum_at_T", r == S(T))]
 
-    return [VC("C01.lens.first_eos", "_lens_from_eos[symbolic length]", M, "_lens_from_eos", thunk, pre=[T >= 0], posts=[("first_eos_or_full_length", post)],
+    return [VC("C01.P.lens_first_eos", "_lens_from_eos[symbolic length]", M, "_lens_from_eos", thunk, pre=[T >= 0], posts=[("first_eos_or_full_length", post)],
                twins=[("last_eos", lambda p: z3.Implies(z3.And(0 <= J, J < T, tok(J) == EOS), J <= p.value) if api.returns(p) and ip.is_z3(p.value) else None)],
                inputs={"T": T, "eos": EOS},
                assumptions=["assumed torch contracts: eq element-wise; cumsum by its recurrence; sum by its partial-sum recurrence (vf/pyvc/symvec.py)",
